@@ -309,6 +309,25 @@ func checkSetupV3(r *Run, p *Prog, ro *Roles, act *ssa.Function) {
 		return name == "os.Remove" || name == "os.RemoveAll" || name == "syscall.Unlink" || name == "varlink.listen" || strings.HasPrefix(name, "net.Listen") || name == "net.ListenConfig.Listen"
 	}
 	n := 0
+	seenAt := map[token.Pos]bool{} // address-path calls that are part of a setup view (judged there)
+	defer func() {
+		// ... and nowhere else: a removal of the socket path or a listen outside the setup (in the reset at the end of
+		// serving, in Shutdown) does not know whether the listener was inherited - under socket activation the path
+		// named by the address argument is not the service's to touch
+		for _, g := range p.LibFuncs() {
+			for _, cs := range callsIn(g, false) {
+				c, ok := cs.Instr.(*ssa.Call)
+				if !ok {
+					continue
+				}
+				if nm := calleeName(&c.Call); !isAddrPath(nm) || nm == "varlink.listen" || seenAt[c.Pos()] {
+					continue // (the package's own listen wrapper is judged by the library calls inside it)
+				}
+				r.Ob("V3", shortName(g), calleeName(&c.Call)+" happens in the listener setup only", c.Pos(), false,
+					"the address is used (a socket file removed, an address bound) outside the listener setup, where nothing says whether the listener was inherited: under socket activation the address argument must be ignored")
+			}
+		}
+	}()
 	for _, e := range entries {
 		f := p.Inlined(e, func(c *ssa.Function) bool { return c == act })
 		ro.CG.AddView(f)
@@ -338,6 +357,7 @@ func checkSetupV3(r *Run, p *Prog, ro *Roles, act *ssa.Function) {
 				if !isAddrPath(name) {
 					continue
 				}
+				seenAt[c.Pos()] = true
 				r.Ob("V3", fn, name+" only when there is no activation listener", c.Pos(), hasFact(T.FactsAt(b), "EQ", at, "nil"),
 					"the address is used (a socket file removed, an address bound) although an inherited listening socket may be available: the address argument must be ignored under socket activation")
 			}
